@@ -263,6 +263,10 @@ func (f *FSM) MustCopyWithState(state State) *FSM {
 				exists = true
 			}
 		}
+		// a machine can be restored in one of its own final states (canceled, collected)
+		if f.IsFinState(state) {
+			exists = true
+		}
 		if !exists {
 			panic(fmt.Sprintf("cannot set state, not exists  \"%s\" for \"%s\"", state, f.name))
 		}
@@ -467,6 +471,14 @@ func (f *FSM) isCallbackExists(event Event) bool {
 func (f *FSM) execCallback(event Event, args ...interface{}) (Event, interface{}, error) {
 	callback := f.callbacks[event]
 	return callback(event, args...)
+}
+
+// FinStatesList returns the states this machine can only finish in (they are never a source state here)
+func (f *FSM) FinStatesList() (states []State) {
+	for state := range f.finStates {
+		states = append(states, state)
+	}
+	return
 }
 
 func (f *FSM) IsFinState(state State) bool {
